@@ -214,10 +214,65 @@ class CFG:
                     self.succ[i].append(o)
                     self.pred[o].append(i)
                 self.edge_label.setdefault((i, o), []).append(lab)
+        self._thread_jumps()
         self.returns = [i for i, b in enumerate(fn.blocks) if not b["cleanup"] and b["term"]["k"] == "return"]
         self.reach = self._reach(0)
         self._dom = None
         self._loops = None
+
+    def _thread_jumps(self):
+        """jump threading for the boolean-temporary idioms (`a && b`, `while if a { b } else { false }`):
+        a block P that ends by assigning a boolean literal to a temporary L and jumping to an empty block J whose
+        terminator is `switch(L)` continues, in effect, at the matching target of J.  Only edges are rewired."""
+        fn = self.fn
+        changed = True
+        rounds = 0
+        while changed and rounds < 4:
+            changed = False
+            rounds += 1
+            for j in range(self.n):
+                bj = fn.blocks[j]
+                if bj["cleanup"] or bj["stmts"] or bj["term"]["k"] != "switch":
+                    continue
+                d = bj["term"]["discr"]
+                if d["k"] not in ("copy", "move") or d["place"]["proj"]:
+                    continue
+                L = d["place"]["local"]
+                if fn.locals[L]["name"]:
+                    continue
+                for p in list(self.pred[j]):
+                    bp = fn.blocks[p]
+                    if bp["term"]["k"] != "goto":
+                        continue
+                    val = None
+                    for s in bp["stmts"]:
+                        if s["k"] == "assign" and not s["place"]["proj"] and s["place"]["local"] == L:
+                            rv = s["rv"]
+                            if rv["k"] == "use" and rv["op"]["k"] == "const" and rv["op"]["s"] in ("const true", "const false", "true", "false"):
+                                val = 1 if "true" in rv["op"]["s"] else 0
+                            else:
+                                val = None
+                    if val is None:
+                        continue
+                    tgt = None
+                    for v, tb in bj["term"]["targets"]:
+                        if v == val:
+                            tgt = tb
+                    if tgt is None:
+                        tgt = bj["term"]["otherwise"]
+                    ob = fn.blocks[tgt]
+                    if ob["term"]["k"] == "unreachable" and not ob["stmts"]:
+                        continue
+                    # rewire p -> j  into  p -> tgt
+                    self.succ[p] = [tgt if x == j else x for x in self.succ[p]]
+                    self.succ[p] = list(dict.fromkeys(self.succ[p]))
+                    if p in self.pred[j]:
+                        self.pred[j].remove(p)
+                    if p not in self.pred[tgt]:
+                        self.pred[tgt].append(p)
+                    self.threaded = getattr(self, "threaded", [])
+                    self.threaded.append((p, j, tgt))
+                    changed = True
 
     def _reach(self, start):
         seen = {start}
@@ -285,6 +340,15 @@ class CFG:
         return [l for l in self.loops if bb in l["body"]]
 
     # ---- path queries -------------------------------------------------------------------
+    def escape_path_from(self, bb, blocked):
+        """like escape_path but the path may START in `bb` itself (bb not yet executed): is there a normal path
+        bb ... Return avoiding `blocked`?"""
+        if bb in blocked:
+            return None
+        if bb in self.returns:
+            return [bb]
+        return self.escape_path(bb, blocked)
+
     def escape_path(self, start_bb, blocked, start_after=True, targets=None, stop_edges=None):
         """Find a normal path from `start_bb` (leaving it) to a Return block (or to any block in
         `targets`) that does not enter any block in `blocked`.  Returns the path (list of bbs) or None.
